@@ -25,7 +25,9 @@ func rulesC15(c *Ctx) {
 	R.Rule("R3", "state check: per-Y entry, SPENT/PENDING priority behind hits of that Y, witness of the matching row, resolve before answer", 9)
 	R.Rule("R4", "restore: per-message read by B_, skip exactly on no-rows, other errors fail, lock-step append of unmodified signatures; error wrapping visible to errors.Is", 7)
 	R.Rule("R5", "SQL statements agree with Go arguments and scan destinations", 25)
+	R.Rule("R6", "restore returns nothing for outputs the mint refused: swap stores signatures only after the spent-table insert succeeded (shared with C01.R3)", 1)
 	c.vocabProblems("R1")
+	c.ruleSigsAfterSpent("R6")
 
 	// ---- R1
 	for _, path := range []string{"/v1/swap", "/v1/mint/{method}"} {
